@@ -343,6 +343,12 @@ func l2Probe(e *L2Env, seed uint64, knownVals []ValKey) []string {
 	}
 	m("withdraw(native)", l2.Deliver(opchildtypes.NewMsgInitiateTokenWithdrawal(e.Users[0].String(), "l1recipient", sdk.NewCoin("unative", math.NewInt(1)))))
 	m("transfer", l2.Deliver(banktypes.NewMsgSend(e.Users[0].Addr, e.Users[4].Addr, sdk.NewCoins(sdk.NewCoin("unative", math.NewInt(1))))))
+	// every known consensus key offered under a fresh operator (refused while any stored validator holds the key)
+	for i, k := range knownVals {
+		other := NewValKey(880 + i)
+		msg, _ := opchildtypes.NewMsgAddValidator("squatter", l2.Authority, other.Operator.Val(), k.Pub)
+		m(fmt.Sprintf("add(fresh operator %d, key of %s)", i, k.Operator.Name), l2.Deliver(msg))
+	}
 	// validator operations + block ends
 	for i, k := range knownVals {
 		if i%2 == 0 {
@@ -445,6 +451,17 @@ func (c *c16) l2Histories(n, steps int) {
 				i := 1 + rng.Intn(5)
 				if w.removeValidator(NewValKey(i).Operator, i).Class == sim.OK {
 					feat["removed_validator"] = true
+					if rng.Chance(25) {
+						// exported before the block ends: the removed validator's record (and the key it holds) is still there
+						feat["exported_mid_block_after_remove"] = true
+						var kv []ValKey
+						for j := 1; j <= 5; j++ {
+							if known[j] {
+								kv = append(kv, NewValKey(j))
+							}
+						}
+						c.l2State(w, kv, feat)
+					}
 				}
 			case x < 80:
 				n := 1 + rng.Intn(3)
@@ -521,6 +538,8 @@ func (c *c16) l2State(w *valWorld, known []ValKey, feat map[string]bool) {
 	detail := ""
 	if diffAt >= 0 {
 		detail = firstDiff(ta[diffAt], tb[diffAt])
+	} else if !same {
+		detail = fmt.Sprintf("the probe transcripts have different lengths (%d on the original, %d on the re-imported chain)", len(ta), len(tb))
 	}
 	run.Check("C16.L2.behaviour_identical_after_import", same, "c16.l2.behaviour_differs", append(append([]string(nil), w.path...), detail), "probe step %d answers differently on the re-imported L2: %s", diffAt, detail)
 	run.CountN("C16.L2.probe_steps", len(ta))
